@@ -144,6 +144,42 @@ class Ctx:
                     out.append((i, json.loads(line)))
         return out
 
+    def sample_lines_stratified(self, path, n, total, key=None, cover=3):
+        """Seeded sample of n lines that covers features: key(parsed line) is a set of features (default:
+        hist_features); scenarios are taken (in seeded random order) while they contain a feature or a pair of
+        features seen fewer than `cover` times so far, then the sample is filled up at random.  Rare kinds of
+        scenario are thereby always represented."""
+        if total <= n:
+            return self.sample_lines(path, n, total)
+        key = key or hist_features
+        feats = []
+        with open(path) as f:
+            for line in f:
+                feats.append(sorted(key(json.loads(line))))
+        idx = list(range(len(feats)))
+        self.rng.shuffle(idx)
+        seen, pick = {}, []
+        for i in idx:
+            fs = feats[i]
+            units = [(a,) for a in fs] + [(a, b) for x, a in enumerate(fs) for b in fs[x + 1:]]
+            if any(seen.get(u, 0) < cover for u in units):
+                pick.append(i)
+                for u in units:
+                    seen[u] = seen.get(u, 0) + 1
+                if len(pick) >= n:
+                    break
+        chosen = set(pick)
+        for i in idx:
+            if len(chosen) >= n:
+                break
+            chosen.add(i)
+        out = []
+        with open(path) as f:
+            for i, line in enumerate(f):
+                if i in chosen:
+                    out.append((i + 1, json.loads(line)))
+        return out
+
     def monitor(self, module, trace, cfg=None, timeout=2400, heap="6g", par=6):
         """(T) validates recorded traces with the monitor spec. trace is a file, or
         a prefix of chunk files <trace>.0001 ... Returns (viols=[(formula, line, scenario)], lines consumed)."""
@@ -318,6 +354,34 @@ class Ctx:
             json.dump(ev, f, indent=1)
         log("%s %s: %s in %.0fs" % (self.id, self.tier, "VIOLATED" if fresh else "held on everything explored", time.time() - self.t0))
         return 1 if fresh else 0
+
+
+def hist_features(h):
+    """Shape of a TLC-emitted history (list of {t,k,o,f}): which faults and environment steps occur, what surrounds
+    each environment step, and how often (capped at 2) each kind of call occurs within one reconcile."""
+    if isinstance(h, dict):
+        h = h.get("hist", [])
+    sig = set()
+    block = {}
+
+    def flush():
+        for k, c in block.items():
+            sig.add("%sx%d" % (k, min(c, 2)))
+        block.clear()
+    for i, e in enumerate(h):
+        t, k, f = e.get("t", ""), str(e.get("k", "")), str(e.get("f", ""))
+        if t == "env":
+            prev = h[i - 1].get("k", "") if i > 0 else ""
+            nxt = h[i + 1].get("k", "") if i + 1 < len(h) else ""
+            sig.add("env:%s:%s>%s" % (k, prev, nxt))
+        elif t == "call":
+            if k == "get" and e.get("o") == "xr":
+                flush()
+            if f not in ("ok", ""):
+                sig.add("%s:%s" % (k, f))
+            block[k] = block.get(k, 0) + 1
+    flush()
+    return sig
 
 
 def merge_summaries(sums):
